@@ -148,8 +148,9 @@ func one(scn int, sc Scenario, probe string, w *rec.Writer) error {
 	serr := ad.Start()
 	add("started", "err", serr != nil, "errtext", fmt.Sprint(serr), "ms", int(time.Since(t0).Milliseconds()))
 	if serr == nil {
-		// one event for everybody, twice (a plugin that dies later dies after the first)
-		for i := 1; i <= 2; i++ {
+		// one event for everybody, three times: a plugin that dies later dies after the first, is dropped
+		// during the second, and the third shows the order of the remaining ones
+		for i := 1; i <= 3; i++ {
 			e := ad.RunPodSandbox(context.Background(), &api.StateChangeEvent{Pod: &api.PodSandbox{Id: fmt.Sprintf("ev%d", i)}})
 			add("event", "i", i, "err", e != nil)
 			time.Sleep(10 * time.Millisecond)
